@@ -729,7 +729,10 @@ theorem callFactory_eq (kind : String) (st : St) :
     callFactory kind st =
       match freshObj kind with
       | some o => (allocSt st o, .ok (.ref st.heap.length))
-      | none => ({ st with calls := st.calls + 1 }, .error (.raised (exc "RuntimeError"))) := by
+      | none =>
+        match freshScalar kind with
+        | some c => ({ st with calls := st.calls + 1 }, .ok c)
+        | none => ({ st with calls := st.calls + 1 }, .error (.raised (exc "RuntimeError"))) := by
   unfold callFactory freshObj allocSt
   repeat' split
   all_goals first | rfl | simp_all
@@ -809,6 +812,111 @@ theorem children_empty {env : MEnv} {h : Heap} {a : Nat} {o : Obj} (ha : h[a]? =
   | tuple c xs => cases xs <;> simp_all [emptyObj]
   | inst c as => cases as <;> simp_all [emptyObj]
   | set c xs => simp [emptyObj] at ho
+
+/-- the scalars a non-container factory returns -/
+def emptyScalar : Val → Bool
+  | .int i => i == 0
+  | .str s => s == ""
+  | .none => true
+  | _ => false
+
+theorem freshScalar_empty {kind c} (h : freshScalar kind = some c) : emptyScalar c = true := by
+  unfold freshScalar at h
+  repeat' split at h
+  all_goals first
+    | contradiction
+    | (injection h with h; subst h; rfl)
+
+theorem emptyScalar_not_ref {c : Val} (h : emptyScalar c = true) : ∀ a, c ≠ .ref a := by
+  intro a e; subst e; simp [emptyScalar] at h
+
+theorem pyGetattr_scalar {h : Heap} {c : Val} (hc : ∀ a, c ≠ .ref a) (name : Val) :
+    ∃ e, pyGetattr h c name = .error e := by
+  unfold pyGetattr
+  cases name <;> cases c <;> first | exact ⟨_, rfl⟩ | exact absurd rfl (hc _)
+
+theorem strIndex_empty (i : Int) : strIndex "" i = none := by
+  have : ("" : String).toList = [] := rfl
+  simp [strIndex, this, pyIndex_nil]
+
+theorem pyGetitem_scalar {h : Heap} {c : Val} (hc : emptyScalar c = true) (key : Val) :
+    ∃ e, pyGetitem h c key = .error e := by
+  unfold pyGetitem
+  cases c with
+  | str s =>
+    have : s = "" := by simpa [emptyScalar] using hc
+    subst this
+    simp only [strIndex_empty]
+    split <;> exact ⟨_, rfl⟩
+  | ref a => simp [emptyScalar] at hc
+  | _ => exact ⟨_, rfl⟩
+
+theorem applyHandler_scalar {h : Heap} {c : Val} (hc : emptyScalar c = true) (hn : String) (arg : Val) :
+    ∃ e, C01.applyHandler h hn c arg = .error e := by
+  unfold C01.applyHandler
+  split
+  · exact pyGetitem_scalar hc arg
+  · split
+    · unfold pySeqGet
+      split
+      · exact pyGetitem_scalar hc _
+      · exact ⟨_, rfl⟩
+    · split
+      · exact pyGetattr_scalar (emptyScalar_not_ref hc) arg
+      · exact ⟨_, rfl⟩
+
+/-- every access step on `0`, `''`, `None` fails -/
+theorem refAccess_scalar {env : MEnv} {h : Heap} {c : Val} (hc : emptyScalar c = true) (op : String)
+    (arg : Val) (r : Except PyExc Val) (hr : C01.refAccess env.t h op c arg = some r) :
+    ∃ e, r = .error e := by
+  unfold C01.refAccess at hr
+  split at hr
+  · injection hr with hr; subst hr; exact pyGetattr_scalar (emptyScalar_not_ref hc) arg
+  · split at hr
+    · injection hr with hr; subst hr; exact pyGetitem_scalar hc arg
+    · split at hr
+      · cases hg : C01.getHandler env.t h c with
+        | none => simp [hg] at hr
+        | some hn => simp [hg] at hr; subst hr; exact applyHandler_scalar hc hn arg
+      · contradiction
+
+theorem children_scalar {env : MEnv} {h : Heap} {c : Val} (hc : ∀ a, c ≠ .ref a) : children env h c = [] := by
+  cases c <;> first | rfl | exact absurd rfl (hc _)
+
+theorem isScope_scalar {env : MEnv} {h : Heap} {c : Val} (hc : ∀ a, c ≠ .ref a) : isScope env h c = false := by
+  cases c <;> first | rfl | exact absurd rfl (hc _)
+
+/-- nothing can be assigned into a value that is not an object -/
+theorem refAssignOp_scalar {env : MEnv} {h : Heap} {op : String} {c arg v : Val} (hc : ∀ a, c ≠ .ref a)
+    (w : Wr) : refAssignOp env h op c arg v ≠ some (.ok w) := by
+  have h1 : ∀ k, pySetitem env h c k v ≠ .ok w := by
+    intro k; unfold pySetitem; cases c <;> first | exact absurd rfl (hc _) | simp
+  have h2 : ∀ k, pySetattr env h c k v ≠ .ok w := by
+    intro k; unfold pySetattr; cases k <;> cases c <;> first | exact absurd rfl (hc _) | simp
+  have h3 : ∀ k, pySetSeqItem env h c k v ≠ .ok w := by
+    intro k; unfold pySetSeqItem; split
+    · exact h1 _
+    · simp
+  unfold refAssignOp
+  split
+  · intro e; injection e with e; exact h1 _ e
+  · split
+    · intro e; injection e with e; exact h2 _ e
+    · split
+      · cases hn : nearestHandler env.t.ct env.assignReg (c.clsName h) with
+        | none => simp
+        | some n =>
+          simp only [Option.map_some]
+          intro e; injection e with e
+          unfold applyAssignHandler at e
+          split at e
+          · exact h1 _ e
+          · split at e
+            · exact h3 _ e
+            · split at e
+              · exact h2 _ e
+              · cases e
+      · simp
 
 theorem flattenN_nil (n : Nat) : flattenN n [] = .ok [] := by
   induction n with
